@@ -3,7 +3,7 @@ import json, os
 import vlib
 
 PROPS = ["C15"]
-C15_NAMES = ["SwapStale", "ReadWrong", "WaitNeverHeld", "WaitUnsatisfied", "SpuriousCancel", "SpuriousErr",
+C15_NAMES = ["SwapStale", "SwapAfterReturn", "ReadWrong", "WaitNeverHeld", "WaitUnsatisfied", "SpuriousCancel", "SpuriousErr",
              "UnknownResult", "Stuck"]
 PROPERTY_OF = {n: "C15" for n in C15_NAMES}
 LABEL_RULES = [
@@ -13,13 +13,15 @@ LABEL_RULES = [
     (r"FireErr\((\d+)\)", "fire:c{1}:err"),
     (r"FireNil\((\d+)\)", "fire:c{1}:nil"),
     (r"FireClose\((\d+)\)", "fire:c{1}:close"),
-    (r"(?:WriteCS|SampleCS)\((\d+)\)", "grant:c{1}"),
+    (r"LongExit\((\d+)\)", "unhold:c{1}"),
+    (r"(?:WriteCS|SampleCS|LongEnter)\((\d+)\)", "grant:c{1}"),
     (r"(?:Wake|WakeCtx|WakeErr)\((\d+)\)", None),
 ]
 
-SCEN = {"quick": ["cc_q1", "cc_q2", "cc_q3"],
-        "thorough": ["cc_q1", "cc_q2", "cc_q3", "cc_t1", "cc_t2", "cc_t3", "cc_t4"]}
-BIG = ["cc_b1"]   # thorough: model checked only (graph too large to dump)
+# cc_q4 / cc_t5 / cc_t6: long SwapValue callbacks (the cell's mutex held over several steps) with concurrent set / get / waiters
+SCEN = {"quick": ["cc_q1", "cc_q2", "cc_q3", "cc_q4"],
+        "thorough": ["cc_q1", "cc_q2", "cc_q3", "cc_q4", "cc_t1", "cc_t2", "cc_t3", "cc_t4", "cc_t5", "cc_t6"]}
+BIG = ["cc_b1", "cc_b2"]   # thorough: model checked only (graph too large to dump)
 
 
 def scen_path(n):
@@ -37,7 +39,7 @@ def tla_prog(sc):
             elif o["op"] == "set":
                 ops.append(dict(op="set", v=o["v"]))
             elif o["op"] == "swap":
-                ops.append(dict(op="swap", d=o["d"]))
+                ops.append(dict(op="swap", d=o["d"], long=bool(o.get("long", False))))
             else:
                 ops.append(dict(op=o["op"]))
         prog.append(ops)
@@ -52,7 +54,7 @@ def mk_factory(sc):
                   "EagerWake = %s" % ("TRUE" if kind == "graph" else "FALSE")]
         cfg = ["INIT Init", "NEXT Next", "CHECK_DEADLOCK FALSE", "CONSTANTS"] + [" " + c for c in consts]
         if kind == "mc":
-            cfg += ["INVARIANTS TypeOK CellAgree NoLostWake ModelSafe QuietInv"]
+            cfg += ["INVARIANTS TypeOK CellAgree MtxAgree NoLostWake ModelSafe QuietInv"]
         vlib.write_mc(d, "MC", "CContainer", ["ScProg == " + vlib.json2tla(prog)], cfg)
     return mk
 
@@ -61,14 +63,26 @@ def models(wd, tier, seed):
     states = trans = 0
     scheds, notes, names = [], [], []
     quick = tier == "quick"
-    for name in SCEN[tier] + ([] if quick else BIG):
-        if not os.path.exists(scen_path(name)):
-            continue
+
+    def one(name, workers):
         sc = json.load(open(scen_path(name)))
         big = name in BIG
-        r, paths, nn = vlib.model_and_schedules(wd, name, mk_factory(sc), LABEL_RULES, seed, cap=1000 if quick else 30000,
+        r, paths, nn = vlib.model_and_schedules(wd, name, mk_factory(sc), LABEL_RULES, seed, cap=750 if quick else 30000,
                                                 invariant_cfg={"specdirs": ["ccontainer", "lib"]}, graph_cfg=None,
-                                                workers=vlib.NCPU if big else min(8, vlib.NCPU), timeout=1500, dump_graph=not big)
+                                                workers=workers, timeout=1500, dump_graph=not big)
+        return name, sc, r, paths, nn
+
+    # the dumped models are small (JVM start-up dominates): one TLC pair per scenario, side by side;
+    # the big ones (model checked only) one after the other with every worker
+    small = [n for n in SCEN[tier] if os.path.exists(scen_path(n))]
+    par = max(1, min(4, vlib.NCPU, len(small)))
+    from concurrent.futures import ThreadPoolExecutor
+    with ThreadPoolExecutor(max_workers=par) as ex:
+        res = list(ex.map(lambda n: one(n, max(1, vlib.NCPU // par)), small))
+    for name in ([] if quick else BIG):
+        if os.path.exists(scen_path(name)):
+            res.append(one(name, vlib.NCPU))
+    for name, sc, r, paths, nn in res:
         states += r["distinct"]
         trans += r["states"]
         notes += nn
@@ -83,11 +97,15 @@ FAM = dict(driver="ccontainer", specdirs=["ccontainer", "lib"], monitor="CContai
            x_specs=["ccontainer/CContainer.tla"], p_monitor="ccontainer/CContainerP.tla",
            advisory=lambda wd, binp, seed, tier: x_conformance(wd, binp, seed, SCEN["quick"] if tier == "quick" else SCEN["thorough"],
                                                                nrand=100 if tier == "quick" else 1500),
-           assumptions=["CContainerP readings R1-R5 (header of specs/ccontainer/CContainerP.tla): storing a value equal under the custom equality may or may not "
+           assumptions=["CContainerP readings R1-R5, W1-W2 (header of specs/ccontainer/CContainerP.tla): storing a value equal under the custom equality may or may not "
                         "replace the content; SwapValue's return value unconstrained; a cancelled / errored waiter is not required to return; "
                         "closed errCh => context.Canceled accepted as documented",
-                        "SetValue/GetValue/SwapValue(nil) are linearised at their return event (exact under the one-critical-section-per-step controller); "
-                        "SwapValue(cb) at the callback's own event logged under the lock"])
+                        "atomicity of GetValue/SetValue/SwapValue = linearizability: SwapValue(cb) takes effect at the callback's own event logged under the lock "
+                        "(a long callback: when it returns); SetValue/GetValue/SwapValue(nil) anywhere between their call and return events (the monitor keeps every "
+                        "configuration some linearization allows), so the verdict does not depend on critical section and return being one controller step "
+                        "(sched OptDouble / OptParkUnl are on)",
+                        "at quiescent points the controller itself reads the cell (an ordinary GetValue for the monitor) before blocked waiters are judged; "
+                        "not while a long SwapValue callback holds the mutex"])
 
 
 def run(prop, tier, seed):
